@@ -45,7 +45,7 @@ from gen6 import run_solver, Z3, CVC5, parse_values, bv, BV, log, ENV, VERIF, RE
 # (family, parameter, k)
 TIERS = {
     "quick": [("F", 1, 7), ("F", 2, 4), ("F", 3, 3), ("Z", 2, 6), ("Z", 3, 4), ("D", 3, 6), ("D", 4, 8),
-              ("C", 6, 6), ("S", 2, 3), ("T", 237, 7), ("T", 233, 6), ("L", 4, 4), ("R", 2, 4)],
+              ("C", 6, 6), ("S", 2, 3), ("T", 237, 7), ("T", 233, 6), ("L", 4, 4), ("R", 2, 4), ("A", 3, 4)],
     "thorough": [("F", 1, 8), ("F", 2, 5), ("F", 3, 4), ("F", 4, 3), ("Z", 2, 8), ("Z", 3, 5), ("Z", 4, 3),
                  ("D", 3, 6), ("D", 4, 8), ("D", 5, 7), ("D", 6, 8), ("C", 6, 6), ("C", 8, 8), ("S", 2, 4),
                  ("T", 237, 8), ("T", 233, 8), ("T", 234, 8), ("T", 235, 7), ("T", 244, 6), ("T", 236, 6), ("L", 4, 4), ("L", 6, 6), ("R", 2, 5), ("R", 3, 4)],
